@@ -94,6 +94,58 @@ theorem goDecFLBA_eq_spec (size : Nat) (hs : 0 < size) (src : Bytes) :
       omega
     simp [ofOption, chunks_flatten_self size _ src hl]
 
+
+/-! ## PLAIN BYTE_ARRAY: the Go decoder reads every stream the SPEC decoder reads -/
+
+/-- a stream the SPEC decoder reads is the canonical encoding of the values it returns -/
+theorem specDecByteArrayFuel_inv : ∀ (f : Nat) (bs : Bytes) (vs : List Bytes),
+    specDecByteArrayFuel f bs = some vs → bs = encByteArray vs ∧ ∀ v ∈ vs, v.length < 2 ^ 32
+  | 0, bs, vs, h => by
+    rw [specDecByteArrayFuel] at h
+    split at h
+    · rename_i he
+      cases h
+      exact ⟨by simpa [encByteArray] using he, by simp⟩
+    · cases h
+  | f + 1, bs, vs, h => by
+    rw [specDecByteArrayFuel] at h
+    split at h
+    · rename_i he
+      cases h
+      exact ⟨by simpa [encByteArray] using he, by simp⟩
+    · split at h
+      · cases h
+      · rename_i hne h4
+        simp only at h
+        split at h
+        · cases h
+        · rename_i hn
+          cases hr : specDecByteArrayFuel f ((bs.drop 4).drop (leVal (bs.take 4))) with
+          | none => rw [hr] at h; cases h
+          | some tl =>
+            rw [hr] at h
+            simp only [Option.map_some, Option.some.injEq] at h
+            subst h
+            obtain ⟨e, hl⟩ := specDecByteArrayFuel_inv f _ tl hr
+            have ht4 : (bs.take 4).length = 4 := by simp; omega
+            have hlt : leVal (bs.take 4) < 2 ^ 32 := by
+              have := leVal_lt (bs.take 4); rw [ht4] at this; exact this
+            have hvl : ((bs.drop 4).take (leVal (bs.take 4))).length = leVal (bs.take 4) := by
+              simp only [List.length_take, List.length_drop] at hn ⊢; omega
+            constructor
+            · have e4 : leBytes 4 ((bs.drop 4).take (leVal (bs.take 4))).length = bs.take 4 := by
+                rw [hvl]; have := leBytes_leVal (bs.take 4); rw [ht4] at this; exact this
+              have : encByteArray ((bs.drop 4).take (leVal (bs.take 4)) :: tl)
+                  = leBytes 4 ((bs.drop 4).take (leVal (bs.take 4))).length ++
+                    ((bs.drop 4).take (leVal (bs.take 4)) ++ encByteArray tl) := by
+                simp [encByteArray]
+              rw [this, e4, ← e, List.take_append_drop, List.take_append_drop]
+            · intro v hv
+              simp only [List.mem_cons] at hv
+              rcases hv with rfl | hv
+              · rw [hvl]; exact hlt
+              · exact hl v hv
+
 /-! ## BYTE_STREAM_SPLIT: index form = stream form -/
 
 theorem transposeN_eq_range : ∀ (n : Nat) (S : List Bytes),
